@@ -584,7 +584,7 @@ def check_C20(tier):
     session_part(c, "C20", q)
     tr = c.drive("immutable", 1 if q else 0)
     c.validate("immutable", "TraceImmutable", "TraceImmutable.cfg", tr, timeout=3000,
-               rule="every insertion order of %d argument/metadata keys x constructed/decoded tokens x every sequence of <=2 of 26 read-only "
+               rule="every insertion order of %d argument/metadata keys x constructed/decoded tokens x every sequence of <=2 of 27 read-only "
                     "operations (Iter, ToIPLD, String, Equals, typed getters, clones, ExecutionAllowed[WithArgsHook], ToSealed[Writer], ToDagJson/ToDagCbor[Writer], IsValidAt, Policy.Match/String/ToIPLD, DID, Command, accessors); "
                     "deep snapshot unchanged and results equal to the run-alone results" % (3 if q else 4))
     tr = race_run(c, 30 if q else 400)
